@@ -263,7 +263,12 @@ def oracle_enc_layout(ctx, W, L, terms, parity, rng):
     if not e1.pstrings or not e2.pstrings:
         return
     l1, l2 = enc_listing(e1), enc_listing(e2)
-    if sorted(map(repr, l1)) != sorted(map(repr, l2)):
+    # as sets of (string, weight); weights compared numerically (a dtype change may flip the sign of a zero part)
+    # (a string of negligible weight survives only as the dimension marker of an all-cancelling operator, and WHICH
+    # one survives depends on the visiting order - not compared)
+    d1 = {t[:3]: t[3] for t in l1 if abs(t[3]) > 1e-14}
+    d2 = {t[:3]: t[3] for t in l2 if abs(t[3]) > 1e-14}
+    if len({t[:3] for t in l1}) != len(l1) or len({t[:3] for t in l2}) != len(l2) or d1 != d2:
         ctx.fail(name + ":encoding-depends-on-memory-layout-of-the-coefficients", d, "same strings and weights for equal tensors",
                  "%d vs %d strings" % (len(l1), len(l2)))
 
